@@ -16,7 +16,7 @@ const WIDTHS: [u16; 9] = [1, 2, 4, 8, 16, 32, 64, 128, 256];
 fn values_for(n: u16, quick: bool) -> Vec<Big> {
     let nn = n as usize;
     let mut v: Vec<Big> = vec![];
-    let all_upto = if quick { 8 } else { 8 };
+    let all_upto = if quick { 8 } else { 16 };
     if n <= all_upto {
         for x in 0..(1u128 << n) {
             v.push(Big::from_u128(x));
